@@ -33,6 +33,27 @@ NAX = (2048, 4096)
 def make_header(proj, crval, scale, rot, flip, crpix):
     """proj in TAN, TPV, TPV0 (no constant PV terms), TPVS (PV set rescaled by 0.3),
     TANPV (old scamp spelling: -TAN ctype with PV keys), SIP2, SIP3, SIP4"""
+    # variants of a valid header:  <proj>+A0 / +B0  one SIP polynomial written out as explicit zeros (distortion along
+    # one axis only);  TPV+X0 / TPV+Y0  one PV set written out as the identity;  <proj>+Z  a tile-compressed image:
+    # NAXISn describe the compressed table (8 x rows), ZNAXISn the image
+    if "+" in proj:
+        base, var = proj.split("+")
+        h = make_header(base, crval, scale, rot, flip, crpix)
+        if var in ("A0", "B0"):
+            for k in list(h):
+                if k.startswith(var[0].lower() + "_") and not k.endswith("order"):
+                    h[k] = 0.0
+        elif var in ("X0", "Y0"):
+            ax = "1" if var == "X0" else "2"
+            for k in list(h):
+                if k.startswith("pv%s_" % ax):
+                    h[k] = 1.0 if k == "pv%s_1" % ax else 0.0
+        elif var == "Z":
+            h["znaxis1"], h["znaxis2"] = h["naxis1"], h["naxis2"]
+            h["naxis1"], h["naxis2"] = 8, h["znaxis2"]
+        else:
+            raise ValueError(proj)
+        return h
     c, s = np.cos(np.deg2rad(rot)), np.sin(np.deg2rad(rot))
     sc = scale / 3600.0
     h = dict(naxis1=NAX[0], naxis2=NAX[1], crpix1=float(crpix[0]), crpix2=float(crpix[1]),
